@@ -656,7 +656,7 @@ func runScenario(sc *scenario, scratch string) (*vtrace.Trace, error) {
 		"srcdir":  b2i(w.srcIsDir), "tgtdir": b2i(w.tgtIsDir),
 		"force": b2i(sc.Opts.Force != 0), "referrers": b2i(sc.Opts.Referrers != 0), "dtags": b2i(sc.Opts.DTags != 0),
 		"inclext": b2i(sc.Opts.InclExt != 0), "fast": b2i(sc.Opts.Fast != 0), "plats": b2i(len(plats) > 0),
-		"tagged": b2i(sc.TgtByDigest == 0), "faultfree": b2i(faultfree),
+		"tagged": b2i(sc.TgtByDigest == 0), "faultfree": b2i(faultfree), "transient": b2i(transient),
 	}
 
 	// ----- the client under test
